@@ -1046,6 +1046,22 @@ fn c11(cx: &mut Ctx) {
         }
         let lose = plan.lose_rights_at;
         let irr = plan.irreversible_at;
+        // every eighth program: the third occurrence far (52..96 half-moves) from the first two, inside one quiet stretch
+        let far = if kind == 5 && !terminal && !very_long && i % 4 != 3 {
+            let mut r = None;
+            for _ in 0..40 {
+                let st = starts[cx.rng.below(starts.len())];
+                if let Some(a) = far_repetition_program(&mut cx.rng, &st) { r = Some((st, a)); break; }
+            }
+            r
+        } else { None };
+        if let Some((st, a)) = far {
+            cx.sink.count("plans_third_occurrence_far_apart");
+            let line = ops::game(&st, &a);
+            note_game(cx, &line);
+            cx.sink.emit(line);
+            continue;
+        }
         let acts = draw_program(&mut cx.rng, &start, &plan);
         if terminal { cx.sink.count("plans_finishing_by_mate_or_stalemate_at_boundary"); }
         let moves = acts.iter().filter(|a| matches!(a, ops::Act::M(_))).count();
